@@ -624,6 +624,32 @@ def db_sequence(job):
                                          key=["db-sequence"] + why[0],
                                          what="vector {} solved with {} at position {} of the history {} (select={} ranking={}): {}".format(
                                              want, name, pos, list(order), sel, rk, why[1])))
+    # the same history through the imputer entry point (what the pipeline calls)
+    from synrbl.SynRuleImputer.synthetic_rule_imputer import SyntheticRuleImputer as _Imp
+
+    for order in (("shipped", "automated", "shipped"), ("automated", "shipped")):
+        for pos, name in enumerate(order):
+            rules_n = load_db(name)
+            by_smiles_n, _ = db_index(name)
+            f = dict(vt)
+            if q:
+                f["Q"] = q
+            item = {"id": "0", "reactants": "CC", "products": "CC", "Unbalance": "Products", "Diff_formula": f,
+                    "carbon_balance_check": "balanced"}
+            try:
+                o = _Imp.single_impute(item, rules_n, "all", "ion_priority")
+            except Exception:
+                continue
+            n += 1
+            added = o.get("products", "CC")[len("CC"):].lstrip(".")
+            if not added:
+                continue
+            foreign = [t for t in added.split(".") if t not in by_smiles_n and not any(t in k.split(".") for k in by_smiles_n)]
+            if foreign:
+                bads.append(dict(sub="db-sequence", case={"vector": dict(vt), "q": q}, observed=added, expected=name,
+                                 key=["db-sequence", "impute", "non-database-compound"],
+                                 what="single_impute of {} with the {} database at position {} of the history {} added {} which that database does not contain".format(
+                                     want, name, pos, list(order), foreign)))
     # the five charge variants of the vector through ONE imputer (one parallel_impute call), in
     # ascending and descending charge order: every row must get a completion for its own vector
     from synrbl.SynRuleImputer.synthetic_rule_imputer import SyntheticRuleImputer
